@@ -299,6 +299,15 @@ func (m *Model) Apply(s Step, obs *Resp) Expect {
 					e.Adversary = append(e.Adversary, "commit-below-mincommit")
 					return e
 				}
+				if w != nil && w.Kind != KRoll {
+					// The commit record exists and the lock is still there (an earlier commit
+					// failed between its two engine writes): committing completes it, the lock
+					// goes away, no second record.
+					m.Keys[k].Lock = nil
+					e.Changed = true
+					e.Adversary = append(e.Adversary, "commit-completes-partial-commit")
+					continue
+				}
 				m.commitKey(k, l, s.Commit)
 				e.Changed = true
 				continue
@@ -336,6 +345,9 @@ func (m *Model) Apply(s Step, obs *Resp) Expect {
 					e.Adversary = append(e.Adversary, "dup-rollback")
 				} else {
 					e.Adversary = append(e.Adversary, "rollback-after-commit")
+					if l := m.Keys[k].Lock; l != nil && l.Ts == s.Start {
+						e.Adversary = append(e.Adversary, "rollback-on-partial-commit")
+					}
 				}
 				continue
 			}
@@ -354,6 +366,9 @@ func (m *Model) Apply(s Step, obs *Resp) Expect {
 				continue
 			}
 			if s.Commit == 0 {
+				if w := m.WriteByStart(k, s.Start); w != nil && w.Kind != KRoll {
+					e.Adversary = append(e.Adversary, "rollback-after-commit", "rollback-on-partial-commit")
+				}
 				if m.rollbackKey(k, s.Start) {
 					e.Changed = true
 				}
@@ -363,8 +378,14 @@ func (m *Model) Apply(s Step, obs *Resp) Expect {
 					e.Adversary = append(e.Adversary, "commit-below-mincommit")
 					return e
 				}
-				m.commitKey(k, l, s.Commit)
-				e.Changed = true
+				if w := m.WriteByStart(k, s.Start); w != nil && w.Kind != KRoll {
+					m.Keys[k].Lock = nil // completes a partial commit
+					e.Changed = true
+					e.Adversary = append(e.Adversary, "commit-completes-partial-commit")
+				} else {
+					m.commitKey(k, l, s.Commit)
+					e.Changed = true
+				}
 			}
 			e.Verdict = maxInt(e.Verdict, Free)
 		}
@@ -373,6 +394,16 @@ func (m *Model) Apply(s Step, obs *Resp) Expect {
 		k := s.Primary
 		l := m.Keys[k].Lock
 		switch {
+		case l != nil && l.Ts == s.Start && m.WriteByStart(k, s.Start) != nil:
+			// leftover lock of a transaction already decided on the key: nothing may be
+			// rolled back; the reported action is not judged.  An unexpired lock still takes
+			// the min-commit-ts push like any other lock.
+			e.Adversary = append(e.Adversary, "check-on-partial-commit")
+			if !(l.TTL != 0 && s.Cur >= l.Ts+l.TTL) && s.Caller > 0 && l.MinCommit < s.Caller+1 {
+				l.MinCommit = s.Caller + 1
+				e.Pushed = true
+				e.Changed = true
+			}
 		case l != nil && l.Ts == s.Start:
 			if l.TTL != 0 && s.Cur >= l.Ts+l.TTL {
 				e.TTLRule = 1
